@@ -315,7 +315,12 @@ class StmtMixin(ExprMixin):
                 continue
             items = self.concrete_items(st1, it)
             if items is not None:
-                yield from self.unroll_for(s, items, 0, st1, ctx)
+                from .loops import loop_spec, summarised_for
+                spec = loop_spec(self, s, ctx)
+                if spec is not None and spec.summary is not None:
+                    yield from summarised_for(self, s, items, st1, ctx, spec)
+                else:
+                    yield from self.unroll_for(s, items, 0, st1, ctx)
             else:
                 yield from self.loop_cut(s, st1, ctx, it)
 
